@@ -352,4 +352,28 @@ def run(an: Analysis, rep):
             node = node.orelse[0]
         else:
             break
+    # ---- R16.7 the parser takes every argument literally
+    rep.rule("R16.7", "the argument parser reads the command line literally (no @file expansion)", 1)
+    pcalls = [c for c in ast.walk(m.tree) if isinstance(c, ast.Call) and (attr_chain(c.func) or "").split(".")[-1] == "ArgumentParser"]
+    if not pcalls:
+        raise AnalysisError("ArgumentParser(...) construction not found in the command-line module")
+    for pc in pcalls:
+        kw = {k.arg: k.value for k in pc.keywords if k.arg}
+        ff = kw.get("fromfile_prefix_chars")
+        bad = ff is not None and not (isinstance(ff, ast.Constant) and ff.value is None)
+        rep.add("R16.7", f"{m.name}::ArgumentParser(...) takes arguments literally", not bad, loc(m, pc),
+                "no fromfile_prefix_chars: every argument, including the program text after -c / -e, is used as given" if not bad else
+                f"fromfile_prefix_chars={norm_src(ff)}: argparse replaces ANY argument that starts with such a character - also the value of -c / -e - by the lines of the file it "
+                f"names; a valid program whose text starts with it (`@staticmethod\\ndef f(): ...` for '@') is not compiled but looked up as a file, and the command exits 2")
+    # ---- R16.J the --json document: what is printed is loadable, and printable as the command prints it
+    from .common import SharedRules
+    from . import c07
+    from .json_model import find_json_functions, load_schema
+    raw_print = [k for c in ast.walk(fn.node) if isinstance(c, ast.Call) for k in c.keywords if k.arg == "ensure_ascii" and isinstance(k.value, ast.Constant) and k.value.value is False]
+    shj = SharedRules(rep, "R16.J", "the document printed by --json is one from_json_data loads back (shared with C07's R07.1 / R07.3)"
+                      + ("; the command prints it with ensure_ascii=False, so every plain string in it must be UTF-8 encodable or the print itself fails" if raw_print else ""))
+    root, defs = load_schema(an)
+    enc, cdec = find_json_functions(an)
+    rep.run(c07.r071, an, shj, enc, cdec, defs)
+    rep.run(c07.r073, an, shj, enc)
     rep.stats.update(an.stats([it]))
